@@ -473,6 +473,7 @@ func runC02(w *mon.Worker) {
 	}
 	for i := 0; i < w.Share(w.Scale(64, 2000)); i++ {
 		w.Case("double-release", nil, c02DoubleReleaseCase)
+		w.Case("shared-locker", nil, c02SharedLockerCase)
 	}
 }
 
@@ -1086,5 +1087,77 @@ func c02DoubleReleaseCase(c *mon.Case) {
 		} else {
 			c.Inconclusive("final writer did not return")
 		}
+	}
+}
+
+// c02SharedLockerCase: one sync.Locker adapter (Mutex.Locker, RWMutex.Locker, RWMutex.RLocker) is shared by several
+// goroutines that lock and unlock it in a tight loop, the way a sync.Cond or a plain critical section would. Every
+// Lock is grantable as soon as the holder unlocks: nobody may panic, nobody may stay blocked, the idle lock is free.
+func c02SharedLockerCase(c *mon.Case) {
+	r := c.Rng
+	kind := r.IntN(3)
+	var lk sync.Locker
+	var m csync.Mutex
+	var rw csync.RWMutex
+	probe := func() (func(), bool) { return rw.TryLock(true) }
+	name := "RWMutex.Locker"
+	switch kind {
+	case 0:
+		lk, name = m.Locker(), "Mutex.Locker"
+		probe = m.TryLock
+	case 1:
+		lk = rw.Locker()
+	default:
+		lk, name = rw.RLocker(), "RWMutex.RLocker"
+	}
+	n, per := 2+r.IntN(5), 300+r.IntN(500)
+	var panics atomic.Int64
+	var firstPanic atomic.Value
+	var inside atomic.Int64
+	start := make(chan struct{})
+	for g := 0; g < n; g++ {
+		c.Go(fmt.Sprint("l", g), func() {
+			<-start
+			for i := 0; i < per; i++ {
+				func() {
+					defer func() {
+						if p := recover(); p != nil {
+							panics.Add(1)
+							firstPanic.CompareAndSwap(nil, fmt.Sprint(p))
+						}
+					}()
+					lk.Lock()
+					if v := inside.Add(1); v != 1 && kind != 2 {
+						c.Violate("waiters", "locker-conflicting-holders", "%s shared by %d goroutines: %d goroutines are between Lock and Unlock", name, n, v)
+					}
+					if i%8 == 0 {
+						runtime.Gosched()
+					}
+					inside.Add(-1)
+					lk.Unlock()
+				}()
+			}
+		})
+	}
+	close(start)
+	finished, hung := c.WaitActorsOrHang(25 * time.Second)
+	c.Count("shared_locker_rounds", int64(n*per))
+	c.NonTrivial()
+	if p := panics.Load(); p != 0 {
+		c.Violate("waiters", "shared-locker-panics", "%s shared by %d goroutines, each pairing every Lock with one Unlock: %d calls panicked, first: %v", name, n, p, firstPanic.Load())
+		return
+	}
+	if hung {
+		c.Violate("waiters", "grantable-waiter-blocked-on-free-lock", "%s shared by %d goroutines, each pairing every Lock with one Unlock: every goroutine is blocked in Lock in a quiescent process", name, n)
+		return
+	}
+	if !finished {
+		c.Inconclusive("actors did not finish")
+		return
+	}
+	if rel, ok := probe(); !ok {
+		c.Violate("waiters", "idle-lock-refuses-trylock", "%s: after every Lock was paired with its Unlock, TryLock(write) fails on the idle lock", name)
+	} else {
+		rel()
 	}
 }
